@@ -6,7 +6,7 @@ srcroot.activate()
 from metapype.model.node import Node  # noqa: E402
 
 ALPH = ["a", "b", "c", "X", "Z", "0", "7", " ", " ", "\t", "\n", "\xa0", "<", ">", "&", "\"", "'", "\\", "/", ":", "{", "}", "é", "ß", "Ж",
-        "湖", "\U0001F600", "​", "\x00", "\x01", "\x1f", "\x7f", "�", " ", "١", "_", "-", ".", "\r"]
+        "湖", "\U0001F600", "​", "e\u0301", "\u212b", "\u2126", "\u1100\u1161", "\ufb01", "\x00", "\x01", "\x1f", "\x7f", "�", " ", "١", "_", "-", ".", "\r"]
 XML_NAME_START = list("abcxyzABC_") + ["é", "Ж", "湖"]
 XML_NAME_CHARS = XML_NAME_START + list("0123456789-.")
 NAMES = ["dataset", "title", "creator", "para", "a", "b", "stmml:unit", "", "名前", "x y"]
